@@ -97,10 +97,13 @@ structure IgnoreSet where
   hg : Option (List Re) := none             -- `hgignore` applies (the patterns found upstream, possibly none)
   docker : Option (List (Re × Bool)) := none
 
-/-- `pass_ignores` negated.  The path examined is the canonical path of the entry (that of the target for a
-    symbolic link), falling back to the spelled path when it cannot be canonicalised; git's verdict is an input. -/
+/-- `pass_ignores` negated.  The path examined is the entry's own location: the canonical path of its
+    directory plus its name (D78 fix: a symbolic link is not judged by its target, a dangling link not by
+    its spelling); git's verdict is an input. -/
 def IgnoreSet.ignored (ig : IgnoreSet) (e : Entry) : Bool :=
-  let canon := e.absPath.getD e.path
+  let canon := match e.absDir with
+    | some d => childCanon d e.name
+    | none => e.path
   (ig.git && e.gitIgnored) ||
   (match ig.hg with | some fs => hgVerdict fs canon | none => false) ||
   (match ig.docker with | some fs => dockerVerdict fs canon | none => false)
